@@ -1093,3 +1093,35 @@ def exception_rules(ck, fb):
     ck.floor("throw_sites_in_reader_code", n_thr_total, 5)
     if not seen:
         ck.ok("X.escape", "reader call graphs", "%d throw sites in %d reader-reachable functions; none reachable outside a catch(std::exception&) region (%d functions reachable outside handlers)" % (n_thr_total, len(full), len(pred)))
+
+
+# =============================================================================================== enum strings (C18-4)
+def enum_string_rules(ck, fb):
+    ck.rule("E.strings", "the to_string tables of IO/enums.cc hold exactly one string per enumerator, in enumerator order and spelled like the enumerator, and answer nullptr beyond the table")
+    n = 0
+    for f in fb.fns.values():
+        if not (f.has_cfg and f.pq == "OpenVolumeMesh::IO::to_string" and "/IO/enums.cc" in f.file and len(f.d["params"]) == 1):
+            continue
+        et = f.d["params"][0]["t"]
+        en = fb.enums.get(et)
+        if not en:
+            continue
+        n += 1
+        table = None
+        for key, v in fb.vars.items():
+            if key.startswith(f.id + "::") and v.get("kind") == "static-local" and v.get("init") is not None:
+                table = [y.get("v") for y in walk(v["init"]) if isinstance(y, dict) and y.get("k") == "lit" and y.get("t") == "str"]
+        if table is None:
+            for b, i, d in f.nodes(("decl",)):
+                for v in d["vars"]:
+                    if v.get("static") and v.get("init") is not None:
+                        table = [y.get("v") for y in walk(f.resolve(v["init"])) if isinstance(y, dict) and y.get("k") == "lit" and y.get("t") == "str"]
+        if table is None:
+            raise AnalysisBroken("E.strings: string table of to_string(%s) not found" % et)
+        want = [e["n"] for e in sorted(en["enumerators"], key=lambda e: e["v"])]
+        dense = [e["v"] for e in sorted(en["enumerators"], key=lambda e: e["v"])] == list(range(len(want)))
+        ok = dense and table == want
+        (ck.ok if ok else lambda r, w, t: ck.violate(r, w, t, "E.strings:%s" % et.split("::")[-1]))("E.strings", f.where, "to_string(%s): table %s == enumerators %s" % (et.split("::")[-1], table if table != want else "(%d strings)" % len(table), want if table != want else "in order"))
+        guarded = any(unwrap(x.get("x")).get("t") == "nullptr" and any("size()" in estr(c) and ">=" in estr(c) and pol is True for c, pol, e in f.facts(b)) for b, i, x in f.tops() if x.get("k") == "ret" and isinstance(unwrap(x.get("x")), dict))
+        (ck.ok if guarded else lambda r, w, t: ck.violate(r, w, t, "E.strings:%s:bound" % et.split("::")[-1]))("E.strings", f.where, "to_string(%s) returns nullptr for values beyond the table" % et.split("::")[-1])
+    ck.floor("enum_string_tables", n, 4)
